@@ -21,6 +21,30 @@ let flag_of = function
   | "Exact" -> FExact | "NoOp" -> FInexact NoOp | "AddOne" -> FInexact AddOne | "SubOne" -> FInexact SubOne
   | "NoFlag" -> FUnknown | f -> failwith ("flag " ^ f)
 
+(* strip trailing zero digits: Repr::new normalises *)
+let rec normalize b (s, e) =
+  if Zar.sign s = 0 then (Zar.zero, Zar.zero)
+  else let (q, r) = Zar.div_rem s b in
+    if Zar.sign r = 0 then normalize b (q, Zar.succ e) else (s, e)
+
+let flag_name = function NoOp -> "NoOp" | AddOne -> "AddOne" | SubOne -> "SubOne"
+
+(* the answer the as-is model (Float/Model.v) predicts, as tokens "sig exp flag" *)
+let asis_answer b p m op args =
+  (* Repr::new normalises its operands *)
+  let nz i = normalize b (z (List.nth args i), z (List.nth args (i + 1))) in
+  let a i = if i = 3 || i = 5 then fst (nz i) else snd (nz (i - 1)) in
+  let show ap = match ap with
+    | AExact (s, e) -> let (s, e) = normalize b (s, e) in hx s ^ " " ^ hx e ^ " Exact"
+    | AInexact (s, e, r) -> let (s, e) = normalize b (s, e) in hx s ^ " " ^ hx e ^ " " ^ flag_name r in
+  match op with
+  | "mul" -> Some (show (ctx_mul b p m (a 3) (a 4) (a 5) (a 6)))
+  | "sqr" -> Some (show (ctx_sqr b p m (a 3) (a 4)))
+  | "cubic" -> Some (show (ctx_cubic b p m (a 3) (a 4)))
+  | "div" -> (match repr_div b p m (a 3) (a 4) (a 5) (a 6) with Ok ap -> Some (show ap) | _ -> None)
+  | "inv" -> (match repr_div b p m Zar.one Zar.zero (a 3) (a 4) with Ok ap -> Some (show ap) | _ -> None)
+  | _ -> None
+
 let strip op = match String.index_opt op '_' with Some i -> String.sub op 0 i | None -> op
 
 let judge op args got =
@@ -51,7 +75,10 @@ let judge op args got =
           let ok = check_contract b p m x (z s) (isz e) (flag_of f) in
           let exact = (cmp_kx b Zar.one x (z s) (isz e) = Eq) in
           let cls = (if exact then "exact" else "inexact") ^ "-" ^ f in
-          if ok then pass ~extra:("cls=" ^ cls) ()
+          let fid = match asis_answer b p m op args with
+            | Some want -> if want = s ^ " " ^ e ^ " " ^ f then " asis=same" else " asis=diff"
+            | None -> "" in
+          if ok then pass ~extra:("cls=" ^ cls ^ fid) ()
           else begin
             (* diagnose: the correctly rounded p-digit result, for the replay *)
             { v = "fail"; extra = "contract-violated cls=" ^ cls }
